@@ -21,7 +21,8 @@ this is what makes multiplying, dividing, squaring, rooting or raising an offset
 of a sum are always computed in the left unit's scale, a preserve/difference rule may label the result with the second
 unit only under path conditions that imply equal scale; (R4) the K/R-plus-offset guard and the offset-without-delta guard
 raise and precede evaluation, the multiply/divide offset guard exists, and diff/ediff1d/ptp refuse offset units before
-calling NumPy."""
+calling NumPy.
+(R2, extended) where an offset unit is combined with a dimensionless partner the result keeps that unit's offset; (R6) the rules recognise temperatures by identity of the dimension symbol, so every restoration route must hand back unyt's own symbols (shared with C11-R1)."""
 LEVEL_NOTE = """Undecided: the 8x8 table of numerical results of pairwise temperature operations (affine arithmetic values);
 only the mechanism that decides label, scale and refusal is checked. The prefix-aware offset arithmetic of
 _get_conversion_factor is checked for symmetry in C03-R3."""
